@@ -69,6 +69,11 @@ SEEDS = {
  "C07d": dict(property="C07", needs="a worker left on idle timeout, the manager is collecting the sentinels of the live _processes dict (no list copy) when a submit re-spawns the missing worker: dictionary changed size during iteration kills the manager"),
  "C08d": dict(property="C08", needs="a shrink of a busy reusable executor interrupted inside _wait_job_completion (UserWarning turned into an error, KeyboardInterrupt): _max_workers is already lowered, the next identical request is a no-op and the pool keeps its old size"),
  "C09d": dict(property="C09", needs="a growing get_reusable_executor racing with a job whose done-callback calls executor.submit (or calling get_reusable_executor from the callback): the work item now stays in pending_work_items while callbacks run, _wait_job_completion never sees it drain"),
+ "C10d": dict(property="C10", needs="a run of cancelled backlog futures longer than the number of wake-ups still to come, then a request for another max_workers: `return` instead of `continue` after a cancelled item (same statement as seed C01b), _wait_job_completion never sees pending_work_items drain"),
+ "C11d": dict(property="C11", needs="the cleanup raises at the very MAYBE_UNLINK that brings a count to zero: the entry is now kept (count 0), the end-of-life sweep destroys whatever carries that name and later requests count from the stale 0"),
+ "C12d": dict(property="C12", needs="tracker dead + the first tracked operation afterwards is starting a loky process + no free descriptor number below the old tracker fd: getfd() skips the liveness probe, the child is told a descriptor it never inherited"),
+ "C14d": dict(property="C14", needs="another thread/process operating on the Event between the acquire(False) and the release of is_set(), which no longer holds the event's lock: wait() returns False on a set event, clear()/set() are lost or doubled"),
+ "C15d": dict(property="C15", needs="a reducer given (job_reducers / result_reducers / dumps(reducers=)) for a type loky has its own reducer for (functools.partial, MethodType, method descriptors): loky's table is applied after the user's and wins"),
  "C20b": dict(property="C20", needs="kill-type lifecycle + worker with descendants one of which vanishes during the kill: kill_process_tree returns early, the worker is neither killed nor joined (child, fd, semaphore accumulate)"),
 }
 DETECTED = json.load(open(os.path.join(ROOT, "seeded", "detected.json"))) if os.path.exists(os.path.join(ROOT, "seeded", "detected.json")) else {}
